@@ -67,39 +67,73 @@ FLOORS = {"C01.1": 1, "C01.2": 6, "C01.3": 18, "C01.4": 8, "C01.5": 25,
 APE = "evo.core.metrics.APE"
 
 
-def _guarded_by_length(ctx, res: Result, rule: str, clsname: str):
-    ref_n = tm.attr(mm.REF, "num_poses")
-    est_n = tm.attr(mm.EST, "num_poses")
+def _count_owner(t: T) -> Optional[str]:
+    """'ref' / 'est' if t is the number of poses of that trajectory:
+    .num_poses, len(<view>), <view>.shape[0] (or the whole .shape)"""
+    views = ("positions_xyz", "poses_se3", "orientations_quat_wxyz",
+             "timestamps")
+
+    def owner(x: T):
+        return "ref" if x is mm.REF else ("est" if x is mm.EST else None)
+    if t.op == "attr" and t.args[1] == "num_poses":
+        return owner(t.args[0])
+    v = None
+    if is_call_to(t, "builtins.len") and len(t.args[1]) == 1:
+        v = t.args[1][0]
+    elif t.op == "sub" and tm.is_const(t.args[1], 0) and \
+            t.args[0].op == "attr" and t.args[0].args[1] == "shape":
+        v = t.args[0].args[0]
+    elif t.op == "attr" and t.args[1] == "shape":
+        v = t.args[0]
+    if v is not None and v.op == "attr" and v.args[1] in views:
+        return owner(v.args[0])
+    return None
+
+
+def _guarded_by_length(ctx, res: Result, rule: str, clsname: str,
+                       member: str = ""):
+    """every store of error values of this relation is unreachable when the
+    pose counts differ: some raise of MetricsException is conditioned on a
+    comparison of the two counts (however the count is spelled), and all
+    stores come after it with the comparison decided 'equal'"""
     raises = [e for e in res.of_kind("raise")
               if "MetricsException" in (e.data.get("exc_name") or "")]
+    writes = [w for w in res.of_kind("setattr")
+              if w.data["base"] is mm.SELF and
+              w.data["name"] in ("E", "error", "delta_ids") and
+              not tm.is_const(w.live, False)]
     cands = []
     for e in raises:
         for a in tm.atoms(e.live):
-            if a.op == "cmp" and {a.args[1], a.args[2]} == {ref_n, est_n}:
+            if a.op == "cmp" and a.args[0] in ("Eq", "NotEq") and \
+                    {_count_owner(a.args[1]), _count_owner(a.args[2])} == \
+                    {"ref", "est"}:
                 cands.append((e, a))
-    ok = False
-    for (e, a) in cands:      # any raise that does the job (later raises
-        #                       mention the comparison negated in their path)
+    guards = []
+    for (e, a) in cands:
         uneq = a.args[0] == "NotEq"
-        writes = [w for w in res.of_kind("setattr")
-                  if w.data["base"] is mm.SELF and
-                  w.data["name"] in ("E", "error", "delta_ids")]
-        ok = tm.fold(e.live, lambda t: uneq if t is a else None) \
-            is not False and tm.fold(
-                e.live, lambda t: (not uneq) if t is a else None) is False \
-            and bool(writes) and all(
-                w.idx > e.idx and tm.fold(
-                    w.live, lambda t: uneq if t is a else None) is False
-                for w in writes)
-        if ok:
-            break
-    ctx.ob(rule, res.func, ok,
-           f"{clsname}.process_data: unequal pose counts raise "
+        if tm.fold(e.live, lambda t: uneq if t is a else None) \
+                is not False and tm.fold(
+                    e.live, lambda t: (not uneq) if t is a else None) is False:
+            guards.append((e, a, uneq))
+    # each store is cut off by at least one of the guards
+    open_ = [w for w in writes if not any(
+        w.idx > e.idx and tm.fold(
+            w.live, lambda t, a=a, u=uneq: u if t is a else None) is False
+        for e, a, uneq in guards)]
+    ok = bool(writes) and bool(guards) and not open_
+    tag = f"[{member}] " if member else ""
+    ctx.ob(rule, open_[0] if open_ else res.func, ok,
+           f"{clsname}.process_data {tag}: unequal pose counts raise "
            f"MetricsException before any error value is written" if ok else
-           f"{clsname}.process_data: no pose-count comparison raising "
-           f"MetricsException guards the computation (zip would silently "
-           f"truncate to the shorter trajectory)",
-           key=f"{rule}:length-guard")
+           f"{clsname}.process_data {tag}: "
+           + (f"the error values stored at {open_[0].where} are not guarded "
+              f"by a pose-count comparison raising MetricsException"
+              if open_ else "no pose-count comparison raising "
+              "MetricsException guards the computation")
+           + " (zip truncates to the shorter trajectory, numpy broadcasts a "
+             "single pose)",
+           key=f"{rule}:length-guard" + (f":{member}" if member else ""))
 
 
 def check(ctx):
@@ -113,9 +147,8 @@ def check(ctx):
     for member in members:
         res = mm.run_relation(prog, "APE", member)
         ctx.analysed["configs"] += 1
-        if first:
-            _guarded_by_length(ctx, res, "C01.1", "APE")
-            first = False
+        _guarded_by_length(ctx, res, "C01.1", "APE", member)
+        first = False
         block, family, degrees, unit_ape, _ = mm.ORACLE[member]
         err = res.attrs.get((mm.SELF, "error"))
         final_raise = [e for e in res.of_kind("raise")
@@ -265,7 +298,9 @@ def _pipeline_inputs(ctx, rule: str):
                          "read_tum_trajectory_file", "read_kitti_poses_file",
                          "read_euroc_csv_trajectory", "kitti"))
     n += import_rules(ctx, "c11", ("C11.3",), rule)
-    n += import_rules(ctx, "c05", ("C05.2", "C05.4"), rule)
+    # ... and the tolerance is inclusive: a pair whose stamps differ by
+    # exactly t_max_diff is a pair (C05.5)
+    n += import_rules(ctx, "c05", ("C05.2", "C05.4", "C05.5"), rule)
     ctx.require(n >= 12, f"{rule}: reader / crop / association instances "
                 f"not found")
 
@@ -675,12 +710,26 @@ def _common_wiring(ctx, P: str):
         alone = [tm.fold(e.live, given) for e in evs]
         both = [tm.fold(e.live, lambda t: given(t, other_on=True))
                 for e in evs]
+        # ... nor may any test that involves the other option (its value
+        # compared with the data, an early return of its block) decide
+        # whether this step runs
+        foreign = []
+        for e in evs:
+            for a in tm.atoms(e.live):
+                if a is A(other) or a is A(opt) or not any(
+                        x is A(other) for x in a.walk()):
+                    continue
+                for val in (True, False):
+                    if tm.fold(e.live, lambda t, a=a, val=val: val if t is a
+                               else given(t, other_on=True)) is False:
+                        foreign.append(a)
+        both = both + [False] * len(foreign)
         okb = bool(evs) and all(v is not False for v in both)
         ctx.ob(_R(P, 5), f, okb,
                f"{name}: also runs when --{other} is given as well (all "
                f"option combinations)" if okb else
                f"{name}: is skipped when --{other} is given as well "
-               f"({[fmt(e.live)[:80] for e in evs]}) — the requested "
+               f"({[fmt(a)[:80] for a in foreign] or [fmt(e.live)[:80] for e in evs]}) — the requested "
                f"filtering is silently not applied",
                key=f"{_R(P, 5)}:dof:{opt}:independent")
         off = [tm.fold(e.live, lambda t: given(t, on=False)) for e in evs]
